@@ -1,7 +1,7 @@
 (** C01 — property theorems only.  Each is closed by [exact] of a lemma of Proofs*.v / Refuted.v and
     followed by [Print Assumptions]. *)
 From V Require Import Base.Util Gql.Ast Writer.Wop Ts.TsType Ts.TsDen
-     C01.Model C01.Spec C01.Corr C01.Witness C01.Proofs C01.Refuted.
+     C01.Model C01.Spec C01.Corr C01.Witness C01.Proofs C01.Refuted C01.TsLemmas C01.TreeDen C01.EnvDen.
 
 (** Execute_spec ⊆ Ref_local: for every schema, fragment list, assignment of the boolean variables,
     parent type, selection set and value (spec side only; unbounded) *)
@@ -17,3 +17,27 @@ Theorem C01_merge_unsafe_refuted :
   has_type_b (schema_env w_schema) 40 (type_of w_merge) v_a_empty = Some false.
 Proof. exact merge_unsafe_refuted_C01. Qed.
 Print Assumptions C01_merge_unsafe_refuted.
+
+(** the unguarded statement of C01 (Spec.C01_response_admitted) is false for the current code: on
+    the witness no fuel makes the emitted type admit the response {a: {}} *)
+Theorem C01_full_statement_refuted :
+  ~ C01_response_admitted w_schema w_merge (first_def w_merge) (type_of w_merge).
+Proof. exact Refuted.C01_full_statement_refuted. Qed.
+Print Assumptions C01_full_statement_refuted.
+
+(** to_ts.rs (generate_selection_tree_type, field_to_type, map_to_tstype) is denotation-preserving:
+    for EVERY selection tree whose branch names are declared object types and whose leaves have
+    scalar/enum types, the emitted TS type (read with the schema declaration file) admits exactly
+    the values of the tree's direct denotation [tree_den] *)
+Theorem C01_emitted_type_denotes_tree : forall S t v,
+  leaves_ok (sp_leaf_ok S) (sp_obj_ok S) t = true ->
+  (In_type (schema_env S) (generate_selection_tree_type NS t) v
+   <-> tree_den (sp_named S) (sp_obj_keys S) t false v = true).
+Proof. exact emitted_type_den. Qed.
+Print Assumptions C01_emitted_type_denotes_tree.
+
+(** the decider of the TS denotation is monotone in its fuel, so [In_type] is well defined *)
+Theorem C01_has_type_fuel_monotone : forall E f f' t v b,
+  f <= f' -> has_type_b E f t v = Some b -> has_type_b E f' t v = Some b.
+Proof. exact has_type_b_le. Qed.
+Print Assumptions C01_has_type_fuel_monotone.
